@@ -84,6 +84,32 @@ theorem typed_decoder_kind_safe (k : Kind) (hk : k ≠ .generic) (cr : Crypto) (
     rw [← hkind, hck]; exact kindOfType_inv _ _ hk'
   · exact absurd (hkind ▸ hck) hk
 
+/-- **The kinds without a version-1 form return only claims that declare their own kind (or none)** — a
+top-level `type` cannot smuggle in a nats section of another kind (repair D13). -/
+theorem auth_kinds_declare_own_kind (cr : Crypto) (tok : Str) (c : Claims) (hd : decode cr tok = .ok c)
+    (hk : c.kind = .authRequest ∨ c.kind = .authResponse) :
+    declaredOk (kindTypeStr c.kind) c.val = true := by
+  obtain ⟨_, _, _, _, _, j, ver0, _, _, _, _, _, h4, _⟩ := decode_ok_inv cr tok c hd
+  obtain ⟨id, _, _, hcase⟩ := loadClaims_inv j ver0 c h4
+  rcases hcase with ⟨k', _, hck, _, hl⟩ | ⟨_, _, _, hck, _⟩
+  · subst hck
+    rcases hk with hk | hk <;> rw [hk] at hl ⊢ <;> simp only [loadTyped] at hl
+    · cases h1 : decodeJson Gen.V2.AuthorizationRequestClaims (Codec.zero Gen.V2.AuthorizationRequestClaims) j with
+      | error e => simp [h1, bind, Except.bind] at hl
+      | ok v =>
+        simp only [h1, bind, Except.bind, pure, Except.pure] at hl
+        by_cases hok : declaredOk Gen.V2.cAuthorizationRequestClaim v = true
+        · simp only [hok, if_true, Except.ok.injEq] at hl; rw [← hl]; exact hok
+        · simp [hok] at hl
+    · cases h1 : decodeJson Gen.V2.AuthorizationResponseClaims (Codec.zero Gen.V2.AuthorizationResponseClaims) j with
+      | error e => simp [h1, bind, Except.bind] at hl
+      | ok v =>
+        simp only [h1, bind, Except.bind, pure, Except.pure] at hl
+        by_cases hok : declaredOk Gen.V2.cAuthorizationResponseClaim v = true
+        · simp only [hok, if_true, Except.ok.injEq] at hl; rw [← hl]; exact hok
+        · simp [hok] at hl
+  · rcases hk with hk | hk <;> rw [hk] at hck <;> cases hck
+
 /-- **Encode refuses a signing key of a non-permitted role** (an error, hence no token). -/
 theorem encode_refuses_role (env : EncEnv) (k : Kind) (v : Val)
     (hrole : match allowedSpec k with | none => False | some s => ∀ r ∈ s, isValidPublic r env.pub = false) :
